@@ -4,6 +4,8 @@
 mod common;
 mod strings;
 mod suite_entity;
+mod suite_tree;
+mod tree;
 
 use common::Sink;
 
@@ -20,15 +22,8 @@ fn main() {
     let tier = args[4].as_str();
     let mut sink = Sink::new();
     match suite {
-        "entity" => {
-            suite_entity::run(seed, count, &mut sink);
-            if tier == "thorough" {
-                let alpha = ['&', '<', '>', '\'', '"', ']', '\t', '\n', '\r', ' ', 'a', '\u{a0}', ';', '#'];
-                suite_entity::exhaustive(&alpha, 4, suite_entity::SER_OPS, &mut sink);
-                suite_entity::exhaustive(&[']', '>', 'a'], 8, &["ser_cdata", "ser_text1", "ser_text0"], &mut sink);
-                suite_entity::exhaustive(&['&', '#', 'x', ';', '1', 'a', '+', '\r', '\n'], 5, &["parse_text", "parse_attr"], &mut sink);
-            }
-        }
+        "entity" => suite_entity::run(seed, count, tier, &mut sink),
+        "tree" => suite_tree::run(seed, count, tier, &mut sink),
         _ => {
             eprintln!("unknown suite {}", suite);
             std::process::exit(2);
